@@ -261,11 +261,24 @@ func (act *activation) call(a *alt, ins ssa.Instruction, c *ssa.CallCommon, defe
 	}
 
 	// ---- inline
-	ct := T.MkSite("call:"+key, site, args...)
+	// the call is named (in facts and events) with pointers to tracked locals shown as what they hold now,
+	// e.g. Set(ctx, T{Flow: &flow}) shows the flow; the callee itself receives the real arguments
+	shown := args
+	for i, x := range args {
+		if T.Opaque(x) {
+			if sx := e.snapshot(x, a.cells, 0); sx != x {
+				if &shown[0] == &args[0] {
+					shown = append([]term.ID(nil), args...)
+				}
+				shown[i] = sx
+			}
+		}
+	}
+	ct := T.MkSite("call:"+key, site, shown...)
 	var preAtoms term.Set = a.atoms
 	res := e.runFunc(fn, site, args, fvs, a, act.depth+1)
 	if act.record {
-		act.events = append(act.events, &Event{Key: key, Site: site, Kind: "call", Instr: ins, Fn: act.fn, Args: args, Call: ct, Atoms: preAtoms, Inline: true, Stack: append([]string(nil), e.stackNames...)})
+		act.events = append(act.events, &Event{Key: key, Site: site, Kind: "call", Instr: ins, Fn: act.fn, Args: shown, Call: ct, Atoms: preAtoms, Inline: true, Stack: append([]string(nil), e.stackNames...)})
 		act.events = append(act.events, res.events...)
 	}
 	var out []*alt
